@@ -35,6 +35,11 @@ CHECKS = {
                 text='For every discrete configuration in the bound (levels, cycle, smoother presence, coarse solver, adaptive CGC, sub-range, repeated apply) the real MultiGrid::apply is executed on symbolic operands; its result must equal the independent recursive V/F/W definition as a function of all operator entries and the defect, and the operator-application order must equal the reference log.',
                 note='Trusted: SymReal, DAG hash-consing, z3 5.1.0, hand-written recursion oracle. Mock operands (template is generic); no ghost/MPI transfers; convergence rates outside.',
                 ref='3/C09'),
+    'C14': dict(cat='other', engine='table dump + z3 LRA',
+                technique='rule tables produced by executing the real factory code for every advertised name; z3 (exact LRA) searches a polynomial of degree <= nominal degree that is integrated wrongly',
+                text='Weak fit, stated: the cubature code has no input besides the rule name, so it is executed completely for every advertised name (incl. refine/auto-degree prefixes, aliases); the symbolic part is the integrand: z3 decides in exact rational arithmetic that no polynomial of total degree <= nominal degree (coefficients in [-1,1]) has an integration error above 1e-11*sum|w|; unknown/out-of-range names must be refused.',
+                note='Trusted: g++ build of the real headers, exact monomial moments, nominal degree table (from driver docs / property text), z3 5.1.0. Rules whose (points x monomials) cost exceeds the tier bound are not decided (count reported). Four table defects were found and repaired by fix: commits.',
+                ref='3/C14'),
 }
 NA_REASON = {}
 
